@@ -23,6 +23,9 @@ class Loop:
     # ghost code (Python statements as text) run at the end of every iteration before the
     # invariant is re-established, e.g. lemma applications: "lemma_prefix(value, index)"
     ghost_end: list = field(default_factory=list)
+    # ghost expressions evaluated at the start of every iteration (mentioning a term, e.g. "ap_mode(text[:index + 1])",
+    # makes its unfolding available on every path of the body, including those that leave by raise)
+    ghost_begin: list = field(default_factory=list)
     assume: list = field(default_factory=list)  # NOT allowed in proofs; listed as assumption if used
 
 
